@@ -384,6 +384,8 @@ pub struct UlCfg {
     pub abandoned: Option<(Vec<u8>, u8, usize)>,
     pub extra: Vec<(u16, Vec<u8>)>,
     pub code: u8,
+    /// the extra options ride only on blocks from this index on (0 = every block)
+    pub extra_from: usize,
 }
 
 #[derive(Debug, Default)]
@@ -415,7 +417,9 @@ pub fn upload(server: &mut Server, cfg: &UlCfg, ids: &mut Ids) -> (Vec<Finding>,
         let (mid, tok) = ids.next(cfg.tkl);
         r.mid = mid;
         r.token = tok;
-        r.extra = cfg.extra.clone();
+        if i >= cfg.extra_from {
+            r.extra = cfg.extra.clone();
+        }
         r.block1 = Some((i as u32, more, szx));
         r.payload = body[lo..hi].to_vec();
         let ex = server.exchange(&r.bytes(), cfg.ep, &mut app);
@@ -918,7 +922,7 @@ pub fn run_c09(ctx: &mut Ctx) {
                         2 => Some((body_bytes(998, 2 * s), szx, 1)),                 // shorter
                         _ => Some((body_bytes(997, 700), if szx > 0 { szx - 1 } else { 1 }, 1 + len % 5)), // other block size
                     };
-                    let cfg = UlCfg { ep: 3, path: vec!["up".into()], body, szx, dups: vec![1 + (len % 3) as u8, 1, 2], tkl: len % 9, abandoned, extra: vec![], code: 3 };
+                    let cfg = UlCfg { ep: 3, path: vec!["up".into()], body, szx, dups: vec![1 + (len % 3) as u8, 1, 2], tkl: len % 9, abandoned, extra: vec![], code: 3, extra_from: 0 };
                     let mut probe = ReqSpec::new(3, &["up"]);
                     probe.block1 = Some((70, true, szx));
                     probe.token = vec![0; cfg.tkl];
@@ -955,7 +959,7 @@ pub fn run_c09(ctx: &mut Ctx) {
             vec![]
         };
         let path: Vec<String> = (0..r.urange(1, 3)).map(|i| format!("p{}", i)).collect();
-        let cfg = UlCfg { ep: r.below(3) as u32, path, body: body_bytes(r.next_u64(), len), szx, dups: (0..3).map(|_| r.urange(1, 3) as u8).collect(), tkl: r.usize_below(9), abandoned, extra, code: *r.pick(&[2u8, 3, 5, 6]) };
+        let cfg = UlCfg { ep: r.below(3) as u32, path, body: body_bytes(r.next_u64(), len), szx, dups: (0..3).map(|_| r.urange(1, 3) as u8).collect(), tkl: r.usize_below(9), abandoned, extra, code: *r.pick(&[2u8, 3, 5, 6]), extra_from: 0 };
         let pathrefs: Vec<&str> = cfg.path.iter().map(|s| s.as_str()).collect();
         let mut probe = ReqSpec::new(cfg.code, &pathrefs);
         probe.block1 = Some((400, true, szx));
@@ -1157,7 +1161,11 @@ pub fn run_c10(ctx: &mut Ctx) {
         // the client follows the acknowledged size only when the server shrinks it; keep the
         // property's configuration: clients never raise the size, so a shrinking server ends this
         // transfer early (the acknowledgement itself is what C10 judges)
-        let cfg = UlCfg { ep: 4, path, body: body_bytes(r.next_u64(), len), szx, dups: vec![1], tkl, abandoned: None, extra, code: 3 };
+        let extra_from = if r.bool() { 0 } else { r.urange(1, 3) };
+        let cfg = UlCfg { ep: 4, path, body: body_bytes(r.next_u64(), len), szx, dups: vec![1], tkl, abandoned: None, extra, code: 3, extra_from };
+        if extra_from > 0 && !cfg.extra.is_empty() {
+            rep.count("uploads_whose_later_blocks_carry_more_options");
+        }
         rep.eval();
         let witness = format!("upload: budget {} overhead {} body {}B client block size {}", m, overhead, len, s);
         set_case_str(&witness);
@@ -1174,6 +1182,7 @@ pub fn run_c10(ctx: &mut Ctx) {
     rep.floor("edge_of_fragmentation_cases", 10);
     rep.floor("transfers_fragmented", 10);
     rep.floor("transfers_unfragmented", 5);
+    rep.floor("uploads_whose_later_blocks_carry_more_options", 1);
     rep.floor("upload_client_size_fits", 5);
     rep.floor("upload_client_size_does_not_fit", 5);
     rep.floor("strategy_early", 10);
